@@ -102,6 +102,10 @@ impl Polygon {
     /// Devuelve un polígono que es un espejo respecto al eje X
     pub fn mirror_y(&self) -> Self {
         let mirror: Vec<_> = self.0.iter().map(|p| point![p.x, -p.y]).collect();
+        // Un polígono sin vértices es su propio espejo
+        if mirror.is_empty() {
+            return Self(mirror);
+        }
         let mut counterclockwise = vec![mirror[0]];
         counterclockwise.extend(mirror[1..].iter().rev());
         Self(counterclockwise)
